@@ -50,7 +50,7 @@ def bounds(tier):
         "depth": 2 if tier == "quick" else 3,
         "forward_ops": ["to_scalar_multi_image", "concat(axis, companion)", "expand(axis,size)", "expand2+combine3", "reshape_pmap(n)", "copy", "jit", "vmap"],
         "leaf_round_trips": ["to_vector/from_vector", "to_images/from_images", "GeometricImage pytree (jit)", "tree_flatten/unflatten"],
-        "save_load": "ConvContract, ConvBlock, UNet, ResNet, DilResNet x {equivariant, conventional} x norm x bias",
+        "save_load": "ConvContract, ConvBlock, UNet, ResNet, DilResNet, GroupAverage(ResNet) x {equivariant, conventional} x norm x bias",
     }
 
 
@@ -67,7 +67,7 @@ def cases(tier, seed):
                     if tier == "quick" and lead == 3 and (d == 3 or si > 1):
                         continue
                     out.append({"kind": "layout", "d": d, "sig": si, "order": [list(k) for k in order], "lead": lead, "depth": depth, "cost": 1 + lead * 2})
-    models = ["ConvContract", "ConvBlock", "UNet", "ResNet", "DilResNet"]
+    models = ["ConvContract", "ConvBlock", "UNet", "ResNet", "DilResNet", "GroupAverage"]
     for m in models:
         for eq in (True, False):
             if m == "ConvContract" and not eq:
@@ -307,6 +307,9 @@ def _saveload(case):
             return models.UNet(D, in_keys, out_keys, depth=2, num_downsamples=1, num_conv=1, upsample_filters=up_filters if eq else None, **kw)
         if case["model"] == "ResNet":
             return models.ResNet(D, in_keys, out_keys, depth=2, num_blocks=1, num_conv=1, **kw)
+        if case["model"] == "GroupAverage":
+            inner = models.ResNet(D, in_keys, out_keys, depth=2, num_blocks=1, num_conv=1, **kw)
+            return models.GroupAverage(inner, [np.array(g) for g in geom.make_C2_group(D)], always_average=True)
         return models.DilResNet(D, in_keys, out_keys, depth=2, num_blocks=1, **kw)
 
     a, b = build(random.PRNGKey(1)), build(random.PRNGKey(2))
